@@ -149,13 +149,19 @@ var giantFamilies = []string{
 	// children tables (32-bit ids): one parent with N attribute-bearing
 	// children - representable, so no refusal is demanded; no panic is
 	"events_with_attrs", "links_with_attrs", "points_with_attrs", "exemplars_with_attrs",
+	// N parents of a 32-bit children table: one metric with N data points,
+	// each carrying one exemplar (number, histogram, exp-histogram tables)
+	"points_each_with_exemplar", "hpoints_each_with_exemplar", "ehpoints_each_with_exemplar",
+	// N spans-with-events spread over few spans is impossible (16-bit span
+	// ids), but N events that each carry attributes under 64 spans is
+	"events_with_attrs_many_spans",
 }
 
 func giantSignal(family string) string {
 	switch family {
-	case "events_with_attrs", "links_with_attrs":
+	case "events_with_attrs", "links_with_attrs", "events_with_attrs_many_spans":
 		return Traces
-	case "points_with_attrs", "exemplars_with_attrs":
+	case "points_with_attrs", "exemplars_with_attrs", "points_each_with_exemplar", "hpoints_each_with_exemplar", "ehpoints_each_with_exemplar":
 		return Metrics
 	}
 	switch {
@@ -176,7 +182,8 @@ func (g Giant) mustRefuse() bool {
 	switch g.Family {
 	case "spans_plain", "logs_plain":
 		return false // no attribute-bearing parents: nothing to number
-	case "events_with_attrs", "links_with_attrs", "points_with_attrs", "exemplars_with_attrs":
+	case "events_with_attrs", "links_with_attrs", "points_with_attrs", "exemplars_with_attrs",
+		"points_each_with_exemplar", "hpoints_each_with_exemplar", "ehpoints_each_with_exemplar", "events_with_attrs_many_spans":
 		return false // 32-bit ids: representable
 	case "sharedscopes_traces", "sharedscopes_logs", "sharedscopes_metrics":
 		return false // whether scope ids number distinct scopes or groups is the encoder's choice
@@ -188,7 +195,8 @@ func (g Giant) mustAccept() bool {
 	switch g.Family {
 	case "spans_plain", "logs_plain":
 		return true
-	case "events_with_attrs", "links_with_attrs", "points_with_attrs", "exemplars_with_attrs":
+	case "events_with_attrs", "links_with_attrs", "points_with_attrs", "exemplars_with_attrs",
+		"points_each_with_exemplar", "hpoints_each_with_exemplar", "ehpoints_each_with_exemplar", "events_with_attrs_many_spans":
 		return false // either outcome is accepted, only a panic is not
 	case "sharedscopes_traces", "sharedscopes_logs", "sharedscopes_metrics":
 		return false
@@ -214,6 +222,53 @@ func buildGiant(g Giant) Input {
 			}
 		}
 		return Input{Signal: Traces, Traces: td}
+	case "events_with_attrs_many_spans":
+		td := ptrace.NewTraces()
+		ss := td.ResourceSpans().AppendEmpty().ScopeSpans().AppendEmpty()
+		for i := 0; i < n; i++ {
+			if i%((n+63)/64) == 0 {
+				ss.Spans().AppendEmpty().SetName("s")
+			}
+			ev := ss.Spans().At(ss.Spans().Len() - 1).Events().AppendEmpty()
+			ev.SetName("e")
+			ev.Attributes().PutInt("i", int64(i%7))
+		}
+		return Input{Signal: Traces, Traces: td}
+	case "points_each_with_exemplar", "hpoints_each_with_exemplar", "ehpoints_each_with_exemplar":
+		md := pmetric.NewMetrics()
+		m := md.ResourceMetrics().AppendEmpty().ScopeMetrics().AppendEmpty().Metrics().AppendEmpty()
+		m.SetName("m")
+		var ex func(i int) pmetric.Exemplar
+		switch g.Family {
+		case "points_each_with_exemplar":
+			dps := m.SetEmptyGauge().DataPoints()
+			dps.EnsureCapacity(n)
+			ex = func(i int) pmetric.Exemplar {
+				dp := dps.AppendEmpty()
+				dp.SetIntValue(int64(i % 5))
+				return dp.Exemplars().AppendEmpty()
+			}
+		case "hpoints_each_with_exemplar":
+			dps := m.SetEmptyHistogram().DataPoints()
+			dps.EnsureCapacity(n)
+			ex = func(i int) pmetric.Exemplar {
+				dp := dps.AppendEmpty()
+				dp.SetCount(uint64(i % 5))
+				return dp.Exemplars().AppendEmpty()
+			}
+		default:
+			dps := m.SetEmptyExponentialHistogram().DataPoints()
+			dps.EnsureCapacity(n)
+			ex = func(i int) pmetric.Exemplar {
+				dp := dps.AppendEmpty()
+				dp.SetCount(uint64(i % 5))
+				return dp.Exemplars().AppendEmpty()
+			}
+		}
+		for i := 0; i < n; i++ {
+			ex(i).SetIntValue(int64(i % 3))
+		}
+		return Input{Signal: Metrics, Metrics: md}
 	case "points_with_attrs", "exemplars_with_attrs":
 		md := pmetric.NewMetrics()
 		m := md.ResourceMetrics().AppendEmpty().ScopeMetrics().AppendEmpty().Metrics().AppendEmpty()
@@ -412,7 +467,19 @@ func smallValid(signal string, salt int) Input {
 			dp := m.SetEmptyGauge().DataPoints().AppendEmpty()
 			dp.SetIntValue(int64(i))
 			dp.Attributes().PutInt("i", int64(i))
+			dp.Exemplars().AppendEmpty().SetIntValue(int64(i))
 		}
+		// (every data point table is used again after a giant)
+		h := sm.Metrics().AppendEmpty()
+		h.SetName(fmt.Sprint("smallh", salt))
+		hp := h.SetEmptyHistogram().DataPoints().AppendEmpty()
+		hp.SetCount(uint64(salt))
+		hp.Exemplars().AppendEmpty().SetIntValue(1)
+		e := sm.Metrics().AppendEmpty()
+		e.SetName(fmt.Sprint("smalle", salt))
+		ep := e.SetEmptyExponentialHistogram().DataPoints().AppendEmpty()
+		ep.SetCount(uint64(salt))
+		ep.Exemplars().AppendEmpty().SetIntValue(1)
 		return Input{Signal: Metrics, Metrics: md}
 	}
 }
